@@ -758,6 +758,383 @@ def shrink_case(chk, spec, n, engine, masks, sig):
     return {"m": spec["m"], "comps": comps}
 
 
+# ------------------------------------------------------------------------------------------------
+# sessions: the configuration glue of AStrongSimulationBackend (set_circuit / set_input_state / set_mask(masks, n) /
+# clear_mask / iterator cache keyed by the photon number) against the Lean state machine `PM.C02.Sess`
+# (theorem session_bulk_history_independent: a bulk answer depends on the current configuration only).
+# A script is a list of operations given to ONE engine object; every bulk answer is compared with the model's
+# list of states (order and length) and the exact probabilities of the current circuit on these states.
+# ------------------------------------------------------------------------------------------------
+SESSION_ENGINES = ["Naive", "SLOS", "SLAP", "MPS"]
+MASK_N_VARIANTS = ["none", "same", "zero", "more", "nomask", "fewer", "none", "same", "more2", "nomask"]
+
+
+def py_kept(m, n, masks, mask_n):
+    """independent reading of the mask semantics (direct oracle, not the Lean model): the states of the (m, n) space
+    kept by a mask instantiated for `mask_n or n` photons"""
+    states = all_states(m, n)
+    if masks is None:
+        return states
+    eff = mask_n or n
+    if eff < n:
+        return []
+    out = []
+    for t in states:
+        for mk in masks:
+            deficit, ok = 0, True
+            for ch, x in zip(mk, t):
+                if ch in " *":
+                    continue
+                if x > int(ch):
+                    ok = False
+                    break
+                deficit += int(ch) - x
+            if ok and deficit <= eff - n:
+                out.append(t)
+                break
+    return out
+
+
+def gen_session(rng, i, quick):
+    """one script (the same for every engine): mostly legal, optionally ending with one illegal operation"""
+    m0 = rng.choice([2, 3, 3])
+    circuits = [gen_circuit_spec(rng, m0, rng.randint(1, 4), True)]
+    ops = [{"o": "circ", "c": 0}]
+    cur_m, has_input, cur_n = m0, False, None
+    variant = MASK_N_VARIANTS[i % len(MASK_N_VARIANTS)]
+    mask_first = (i // len(MASK_N_VARIANTS)) % 2 == 0      # the mask is set before / after the first input
+    same_m_next = (i % 3) != 0 if variant != "nomask" else (i // 5) % 2 == 0
+
+    def rand_state(n=None):
+        n_ = rng.choice([1, 2, 2, 3] if cur_m < 3 or quick else [1, 2, 2, 3]) if n is None else n
+        return rng.choice(all_states(cur_m, n_))
+
+    def mask_op(n_ref):
+        base = rng.choice(all_states(cur_m, max(n_ref, 1)))
+        k = rng.choice([1, 1, 2])
+        wild = rng.choice([" ", " ", "*"])
+        masks = []
+        for _ in range(k):
+            b = base if not masks else rng.choice(all_states(cur_m, max(n_ref, 1)))
+            mk = "".join(str(b[j]) if rng.random() < 0.45 else wild for j in range(cur_m))
+            masks.append(mk)
+        if all(ch in " *" for mk in masks for ch in mk):
+            masks[0] = str(base[0]) + masks[0][1:]
+        nn = {"none": None, "same": n_ref, "zero": 0, "more": n_ref + 1, "more2": n_ref + 2,
+              "fewer": max(n_ref - 1, 0)}[variant]
+        return {"o": "mask", "masks": masks if k > 1 or rng.random() < 0.5 else masks[0], "n": nn}
+
+    def queries(s):
+        qs = []
+        for _ in range(rng.randint(1, 3)):
+            q = rng.choice(["allprob", "allprob_s", "dist", "evolve"])
+            qs.append({"o": "bulk", "q": q, "s": (rand_state(sum(s)) if rng.random() < 0.6 else s) if q == "allprob_s" else None})
+        return qs
+
+    n1 = rng.choice([2, 2, 3, 1])
+    s1 = rand_state(n1)
+    if variant == "nomask":
+        # no mask at all in the first part: nothing but set_circuit itself stands between the iterator cache of the
+        # first circuit and the queries on the second one
+        ops.append({"o": "input", "s": s1})
+    elif mask_first:
+        ops.append(mask_op(n1))
+        ops.append({"o": "input", "s": s1})
+    else:
+        ops.append({"o": "input", "s": s1})
+        ops += queries(s1)[:1]
+        ops.append(mask_op(n1))
+    ops += queries(s1)
+    # another input of the same photon number: served from the iterator cache
+    s2 = rand_state(n1)
+    ops.append({"o": "input", "s": s2})
+    ops += queries(s2)
+    # another photon number with the same mask and circuit
+    n2 = rng.choice([k for k in (1, 2, 3) if k != n1])
+    s3 = rand_state(n2)
+    ops.append({"o": "bulk", "q": "allprob_s", "s": s3} if rng.random() < 0.5 else {"o": "input", "s": s3})
+    ops += queries(s3)
+    # back to the first photon number
+    if rng.random() < 0.6:
+        ops.append({"o": "input", "s": rand_state(n1)})
+        ops += queries(s1)[:2]
+    # a new circuit (same size: SLOS keeps its deployed paths; another size: everything is rebuilt)
+    new_m = cur_m if same_m_next else (5 - cur_m)
+    circuits.append(gen_circuit_spec(rng, new_m, rng.randint(1, 4), True))
+    ops.append({"o": "circ", "c": 1})
+    keep_mask = (same_m_next and rng.random() < 0.6) or variant == "nomask"
+    cur_m = new_m
+    if variant == "nomask":
+        variant = "none"
+    if not keep_mask:
+        if rng.random() < 0.5:
+            ops.append({"o": "clear"})
+        else:
+            ops.append(mask_op(n1))
+    s4 = rand_state(rng.choice([n1, n1, n2]))
+    ops.append({"o": "input", "s": s4})
+    ops += queries(s4)
+    tail = rng.random()
+    if tail < 0.3:
+        ops.append({"o": "clear"})
+        ops += queries(s4)
+    elif tail < 0.6:
+        ops.append(mask_op(sum(s4)))
+        ops += queries(s4)
+    # one illegal operation at the end of some scripts
+    bad = i % 5 == 4 and rng.choice(["input-size", "mask-size", "mask-inconsistent", "no-input"])
+    if bad == "input-size":
+        ops.append({"o": "input", "s": [1] * (cur_m + 1)})
+    elif bad == "mask-size":
+        ops.append({"o": "mask", "masks": "1" + " " * cur_m, "n": None})
+    elif bad == "mask-inconsistent":
+        ops.append({"o": "mask", "masks": ["1" + " " * (cur_m - 1), "1" + " " * cur_m], "n": None})
+    elif bad == "no-input":
+        ops.append({"o": "circ", "c": 1})
+        ops.append({"o": "bulk", "q": rng.choice(["allprob", "dist", "evolve"]), "s": None})
+    return {"circuits": circuits, "ops": ops, "bad": bad or None}
+
+
+def session_lean_ops(script):
+    out = []
+    for op in script["ops"]:
+        if op["o"] == "circ":
+            out.append({"o": "circ", "m": script["circuits"][op["c"]]["m"]})
+        elif op["o"] == "input":
+            out.append({"o": "input", "s": op["s"]})
+        elif op["o"] == "mask":
+            mk = op["masks"]
+            out.append({"o": "mask", "masks": [mask_json(x) for x in ([mk] if isinstance(mk, str) else mk)], "n": op["n"]})
+        elif op["o"] == "clear":
+            out.append({"o": "clear"})
+        else:
+            out.append({"o": "bulk", "q": op["q"].replace("_s", ""), "s": op["s"]})
+    return out
+
+
+SESSION_KIND = {"Naive": "base", "MPS": "base", "SLOS": "slos", "SLAP": "slap"}
+
+
+def run_session_real(engine, script, circuits):
+    """-> one observation per operation: ("ok", data) or ("err", class name); stops at the first exception"""
+    import perceval as pcvl
+    from perceval.backends import NaiveBackend, SLOSBackend, SLAPBackend, MPSBackend
+    b = {"Naive": NaiveBackend, "SLOS": SLOSBackend, "SLAP": SLAPBackend, "MPS": MPSBackend}[engine]()
+    if engine == "MPS":
+        b.set_cutoff(64)       # full bond dimension for m <= 3, n <= 3
+    obs = []
+    for op in script["ops"]:
+        try:
+            if op["o"] == "circ":
+                b.set_circuit(circuits[op["c"]])
+                obs.append(("ok", None))
+            elif op["o"] == "input":
+                b.set_input_state(pcvl.BasicState(op["s"]))
+                obs.append(("ok", None))
+            elif op["o"] == "mask":
+                if op["n"] is None:
+                    b.set_mask(op["masks"])
+                else:
+                    b.set_mask(op["masks"], op["n"])
+                obs.append(("ok", None))
+            elif op["o"] == "clear":
+                b.clear_mask()
+                obs.append(("ok", None))
+            elif op["q"] == "allprob":
+                obs.append(("ok", [float(x) for x in b.all_prob()]))
+            elif op["q"] == "allprob_s":
+                obs.append(("ok", [float(x) for x in b.all_prob(pcvl.BasicState(op["s"]))]))
+            elif op["q"] == "dist":
+                obs.append(("ok", [(tuple(k), float(v)) for k, v in b.prob_distribution().items()]))
+            else:
+                obs.append(("ok", {tuple(k): complex(v) for k, v in b.evolve()}))
+        except Exception as e:      # noqa: BLE001 - the class name is the observation
+            obs.append(("err", type(e).__name__))
+            break
+    return obs
+
+
+def session_case(chk, engine, script, credit=True):
+    """-> list of (kind, signature, what, replay)"""
+    circuits = [build_circuit(sp) for sp in script["circuits"]]
+    us = [np.array(c.compute_unitary(), dtype=complex) for c in circuits]
+    cache = chk.__dict__.setdefault("_c02_sess_cache", {})
+    key = json.dumps(script, sort_keys=True)
+    if key not in cache:
+        cache.clear()
+        lops = session_lean_ops(script)
+        models = chk.lean.ask_many([{"op": "session", "kind": k, "ops": lops} for k in ("base", "slos", "slap")])
+        for model in models:
+            if "err" in model:
+                raise core.LeanError(model["err"])
+        # exact amplitudes of every (circuit, photon number) the script reaches
+        need, cur, n_in = [], None, None
+        for op in script["ops"]:
+            if op["o"] == "circ":
+                cur = op["c"]
+            elif op.get("s") is not None:
+                n_in = sum(op["s"])
+                if (cur, n_in) not in need and len(op["s"]) == script["circuits"][cur]["m"]:
+                    need.append((cur, n_in))
+        reps = chk.lean.ask_many([{"op": "table", "m": script["circuits"][c]["m"], "n": n, "U": core.mat(us[c].tolist())}
+                                  for c, n in need])
+        tables = {}
+        for (c, n), r in zip(need, reps):
+            if "err" in r:
+                raise core.LeanError(r["err"])
+            tables[(c, n)] = (r["states"], [[core.uncx(z) for z in row] for row in r["pamp"]])
+        cache[key] = ({k: mdl["outs"] for k, mdl in zip(("base", "slos", "slap"), models)}, tables)
+    outs, tables = cache[key]
+    outs = outs[SESSION_KIND[engine]]
+    obs = run_session_real(engine, script, circuits)
+    rp = {"session": {"engine": engine, "script": script}}
+    bad = []
+    cur, s_in, masks, mask_n = None, None, None, None
+    for idx, op in enumerate(script["ops"]):
+        if idx >= len(outs) or idx >= len(obs):
+            if len(outs) != len(obs):
+                bad.append(("broken", f"{engine}-session-length", f"model answered {len(outs)} operations, the engine "
+                            f"{len(obs)}", rp))
+            break
+        mo, ro = outs[idx], obs[idx]
+        # shadow of the configuration (for the direct oracle and the branch counters only)
+        if op["o"] == "circ":
+            cur, s_in = op["c"], None
+        elif op["o"] == "mask":
+            mk = op["masks"]
+            masks, mask_n = ([mk] if isinstance(mk, str) else list(mk)), op["n"]
+        elif op["o"] == "clear":
+            masks, mask_n = None, None
+        if op.get("s") is not None:
+            s_in = op["s"]
+        if "err" in mo or ro[0] == "err":
+            if "err" in mo and ro[0] == "err":
+                if credit:
+                    chk.branch("session-illegal-op-raises")
+                    chk.count("session_error", f"{mo['err']}:{ro[1]}")
+            elif ro[0] == "err":
+                bad.append(("violation", f"{engine}-session-raises-{ro[1]}", f"{engine} raised {ro[1]} at operation "
+                            f"{idx} ({json.dumps(op)}) of a legal session", rp))
+            else:
+                bad.append(("broken", f"{engine}-session-no-exception", f"{engine} accepted operation {idx} "
+                            f"({json.dumps(op)}) which the model rejects ({mo['err']})", rp))
+            break
+        if op["o"] != "bulk":
+            continue
+        m = script["circuits"][cur]["m"]
+        n = sum(s_in)
+        states, table = tables[(cur, n)]
+        i_s = states.index(list(s_in))
+        listed, valued = mo["ok"]["labels"], mo["ok"]["values"]
+        if listed != valued:
+            # (proved impossible in the model: session_bulk_history_independent_{base,slos,slap})
+            bad.append(("broken", f"{engine}-session-model-labels", "the model files a value under another state", rp))
+            break
+
+        def prob_of(t, oracle=False):
+            if oracle:
+                return abs(expected_amp(oracle_pamp(us[cur], s_in, t), s_in, t)) ** 2
+            return abs(expected_amp(table[i_s][states.index(list(t))], s_in, t)) ** 2
+        exp = [prob_of(t) for t in listed]
+        kept = py_kept(m, n, masks, mask_n)
+        if credit:
+            chk.branch("session-bulk")
+            chk.count("session_query", f"{engine}:{op['q']}")
+            if masks is not None:
+                eff = mask_n or n
+                chk.branch("session-mask")
+                if mask_n == 0:
+                    chk.branch("session-mask-n-zero")
+                if eff > n:
+                    chk.branch("session-mask-slack")
+                if eff < n:
+                    chk.branch("session-mask-too-few-photons")
+                if 0 < len(listed) < len(states):
+                    chk.branch("session-mask-drops-states")
+        what = None
+        mass = sum(exp)
+        if op["q"] in ("allprob", "allprob_s"):
+            got = ro[1]
+            if len(got) != len(exp) or any(not core.close(a, p) for a, p in zip(got, exp)):
+                what = (f"all_prob() returned {len(got)} values {[round(x, 6) for x in got[:6]]}, the configuration "
+                        f"prescribes {len(exp)} states {listed[:6]} with probabilities {[round(x, 6) for x in exp[:6]]}")
+            ok_direct = len(got) == len(kept) and all(core.close(a, prob_of(t, True), 1e-7) for a, t in zip(got, kept))
+        elif op["q"] == "dist":
+            d = dict(ro[1])
+            extra = set(d) - set(map(tuple, listed))
+            miss = [t for t, p in zip(listed, exp) if not core.close(d.get(tuple(t), 0.0), p)]
+            if extra or miss:
+                what = (f"prob_distribution() gives {sorted(d.items())[:4]}, the configuration prescribes "
+                        f"{list(zip(listed, [round(x, 6) for x in exp]))[:4]}")
+            ok_direct = not (set(d) - set(map(tuple, kept))) and all(
+                core.close(d.get(tuple(t), 0.0), prob_of(t, True), 1e-7) for t in kept)
+        else:
+            ev = ro[1]
+            ok_direct = True
+            if mass >= 1e-8:
+                atol = EVOLVE_ATOL / math.sqrt(mass)
+                extra = [k for k in ev if list(k) not in listed and abs(ev[k]) > 1e-12]
+                miss = [t for t, p in zip(listed, exp) if abs(abs(ev.get(tuple(t), 0j)) ** 2 - p / mass) > 2 * atol]
+                if extra or miss:
+                    what = (f"evolve() has |amplitude|^2 {[(k, round(abs(v) ** 2, 6)) for k, v in list(ev.items())[:4]]}, "
+                            f"the configuration prescribes {[(t, round(p / mass, 6)) for t, p in zip(listed, exp)][:4]}")
+                mass_d = sum(prob_of(t, True) for t in kept)
+                ok_direct = mass_d >= 1e-8 and not [k for k in ev if list(k) not in kept and abs(ev[k]) > 1e-12] and all(
+                    abs(abs(ev.get(tuple(t), 0j)) ** 2 - prob_of(t, True) / mass_d) <= 2 * EVOLVE_ATOL / math.sqrt(mass_d)
+                    for t in kept)
+        if what is not None:
+            kind = "broken" if ok_direct else "violation"
+            bad.append((kind, f"{engine}-session-{op['q'].replace('_s', '')}",
+                        f"{engine}, operation {idx} ({json.dumps(op)}) with input {s_in}, masks {masks} (n={mask_n}): "
+                        + what + " [the answer depends on what the object served before]" * (kind == "violation"), rp))
+            break
+    return bad
+
+
+def shrink_session(chk, engine, script, sig):
+    def fails(ops):
+        sc = dict(script, ops=ops)
+        try:
+            return any(x[1] == sig for x in session_case(chk, engine, sc, credit=False))
+        except Exception:
+            return False
+    try:
+        return dict(script, ops=gens.shrink_list(script["ops"], fails, max_rounds=30))
+    except Exception:
+        return script
+
+
+def handle_session(chk, engine, script, credit=True):
+    res = session_case(chk, engine, script, credit)
+    if credit:
+        chk.branch("session:" + engine)
+        ms = [script["circuits"][op["c"]]["m"] for op in script["ops"] if op["o"] == "circ"]
+        if len(ms) >= 2 and ms[0] == ms[1]:
+            chk.branch("session-new-circuit-same-size")
+        if len(ms) >= 2 and ms[0] != ms[1]:
+            chk.branch("session-new-circuit-other-size")
+        kinds = [op["o"] for op in script["ops"]]
+        if "mask" in kinds and "input" in kinds and kinds.index("mask") < kinds.index("input"):
+            chk.branch("session-mask-before-input")
+        if "mask" in kinds and "input" in kinds and kinds.index("mask") > kinds.index("input"):
+            chk.branch("session-mask-after-input")
+        if "clear" in kinds:
+            chk.branch("session-clear-mask")
+        if len(ms) >= 2 and kinds.count("circ") >= 2:
+            second = [j for j, k in enumerate(kinds) if k == "circ"][1]
+            nxt = [k for k in kinds[second + 1:] if k in ("mask", "clear", "bulk")]
+            if nxt and nxt[0] == "bulk" and ms[0] != ms[1]:
+                chk.branch("session-other-size-no-mask-op-between")
+            if nxt and nxt[0] == "bulk" and ms[0] == ms[1]:
+                chk.branch("session-same-size-no-mask-op-between")
+    chk.case(("session", engine, json.dumps(script, sort_keys=True)), nontrivial=True,
+             sample={"session": engine, "ops": [op["o"] + (":" + op["q"] if op["o"] == "bulk" else "") for op in script["ops"]]})
+    for kind, sig, what, rp in res:
+        if kind == "violation":
+            rp = {"session": {"engine": engine, "script": shrink_session(chk, engine, script, sig)}}
+        chk.fail(kind, sig, what, rp)
+
+
 def run(chk: core.Check):
     chk.rule = ("random circuits of BS(3 conventions, 5 unequal rational-trigonometric angles)/PS/PERM/Unitary "
                 "(Cayley-rational and Haar) on m modes; for each engine the whole (m,n) Fock space is enumerated "
@@ -788,7 +1165,13 @@ def run(chk: core.Check):
                              "degenerate-antidiagonal-block", "degenerate-identity-block", "degenerate-all",
                              "degenerate-axis-phase", "degenerate-mask", "degenerate-one-mode",
                              "degenerate-reused-instance", "degenerate-stepper-steps", "degenerate-mps-tensor2"] + \
-                            [f"degenerate-diagonal-block-between-mixers:{e}" for e in ENGINES]
+                            [f"degenerate-diagonal-block-between-mixers:{e}" for e in ENGINES] + \
+                            ["session-bulk", "session-mask", "session-mask-n-zero", "session-mask-slack",
+                             "session-mask-too-few-photons", "session-mask-drops-states", "session-illegal-op-raises",
+                             "session-new-circuit-same-size", "session-new-circuit-other-size",
+                             "session-mask-before-input", "session-mask-after-input", "session-clear-mask",
+                             "session-other-size-no-mask-op-between", "session-same-size-no-mask-op-between"] + \
+                            [f"session:{e}" for e in SESSION_ENGINES]
     chk.lean = core.LeanDriver("C02")
     rng = chk.rng
     n_circ = chk.pick(10, 26)
@@ -964,6 +1347,12 @@ def credit_degenerate(chk, spec, engine, masks, kinds):
     if masks:
         chk.branch("degenerate-mask")
 
+    # --- sessions: the configuration glue against the Lean state machine (same script for the four engines)
+    for i in range(chk.pick(24, 80)):
+        script = gen_session(rng, i, chk.tier == "quick")
+        for engine in SESSION_ENGINES:
+            handle_session(chk, engine, script)
+
 
 def handle(chk, spec, n, engine, masks, reuse=False, order=None, mask_with_n=True, configure=True, degenerate=None):
     m = spec["m"]
@@ -1046,6 +1435,8 @@ def replay(chk, data):
         for k_, sig_, what_, rp_ in mps_tensor1_case(chk, core.uncx(r["mps1"]["z"]), r["mps1"]["d"]):
             chk.fail(k_, sig_, what_, rp_)
         return
+    if "session" in r:
+        return handle_session(chk, r["session"]["engine"], r["session"]["script"], credit=False)
     if "stepper" in r:
         return handle_stepper_steps(chk, r["stepper"]["spec"], r["stepper"]["s"])
     if r.get("reuse"):
